@@ -8,6 +8,9 @@ predicates (`HappyModel/C20/Spec.lean`) judge the implementation's own outputs.
 """
 from __future__ import annotations
 
+import copy
+import decimal
+import fractions
 import json
 import random
 import struct
@@ -33,8 +36,56 @@ def item_of(kind: str, i: int):
 # Merkle keys: the model works on ranks, so the pool is sorted with Python's string order.
 KEYS = sorted({"", "a", "a:", "a:1", "aa", "ab", "b", "k1", "k10", "k2", "key", "key:", "z", "zz", "é", "~",
                "0", "00", "1", "10", "2", "A", "B", "a|b", "a b", "user:1", "user:10", "user:2", "x" * 40, "K"})
-VALS = [0, 1, 2, -1, "0", "1", "v", "", 1.5, (1, 2), "a:1", 10**20, "x|y", b"b", 3, 4]
-assert len({repr(v) for v in VALS}) == len(VALS)
+class _ReprStr(str):
+    """a str subclass with its own repr: equal to the plain string, serialised differently"""
+
+    def __repr__(self):
+        return f"S({str.__repr__(self)})"
+
+
+class _PlainStr(str):
+    """a str subclass that inherits repr: equal to the plain string and serialised identically"""
+
+
+# Value palette of the Merkle family.  Index = value id in a case.  The first 16 are the original
+# plain values (pairwise distinct under == and under repr).  The rest add
+#   * values that are EQUAL under Python's == but serialised (repr) differently: 1 / 1.0 / True /
+#     Decimal(1), 0 / 0.0 / -0.0 / False, 1.5 / Fraction(3, 2), 10**20 / 1e20, (1, 2) / (1.0, 2.0),
+#     b"b" / bytearray(b"b"), "v" / a str subclass with its own repr, [1] / [1.0] / [True], {"n": 1} / {"n": 1.0};
+#   * a value equal AND serialised identically but of another type (str subclass inheriting repr);
+#   * MUTABLE values (list, dict, bytearray): the harness can change the stored object in place and
+#     publish it with update(key, same_object) — op "mupd".
+# Two notions of identity, both computed here from the objects themselves:
+#   RID[v]  serialisation class (= what MerkleTree hashes: repr(value)) — the tree's own notion;
+#   EID[v]  Python-equality class.
+VALS = [0, 1, 2, -1, "0", "1", "v", "", 1.5, (1, 2), "a:1", 10**20, "x|y", b"b", 3, 4,
+        1.0, True, 0.0, False, [3], [3, 33], [], {"n": 1}, {"n": 2}, {"n": 1.0}, bytearray(b"b"), (1.0, 2.0),
+        [1], [1.0], 1e20, decimal.Decimal("1"), _ReprStr("v"), _PlainStr("v"), -0.0, fractions.Fraction(3, 2),
+        bytearray(b"bc"), [True], {"n": 1, "m": 0}]
+NPLAIN = 16
+assert len({repr(v) for v in VALS[:NPLAIN]}) == NPLAIN
+RID = [min(u for u in range(len(VALS)) if repr(VALS[u]) == repr(VALS[v])) for v in range(len(VALS))]
+EID = [min(u for u in range(len(VALS)) if VALS[u] == VALS[v]) for v in range(len(VALS))]
+# == is an equivalence on the palette (no NaN, no partial comparisons), and equal serialisation implies ==
+assert all((VALS[u] == VALS[v]) == (EID[u] == EID[v]) for u in range(len(VALS)) for v in range(len(VALS)))
+assert all(EID[RID[v]] == EID[v] for v in range(len(VALS)))
+MUTABLE = (list, dict, bytearray)
+MUT_GROUPS = [[v for v in range(len(VALS)) if type(VALS[v]) is t] for t in MUTABLE]
+EQ_GROUPS = [g for g in ([v for v in range(len(VALS)) if EID[v] == e and RID[v] == v] for e in sorted(set(EID))) if len(g) > 1]
+
+
+def make_val(v):
+    """a fresh Python object for value id v (mutable kinds are never shared between keys or trees)"""
+    return copy.deepcopy(VALS[v]) if isinstance(VALS[v], MUTABLE) else VALS[v]
+
+
+def set_in_place(obj, target):
+    """change the mutable object `obj` so that it equals `target` (same type), keeping its identity"""
+    if isinstance(obj, dict):
+        obj.clear()
+        obj.update(target)
+    else:
+        obj[:] = target
 
 
 def okey(x: float) -> int:
@@ -114,6 +165,7 @@ class C20(core.Property):
     quick_cases = 2100
     thorough_cases = 40000
     case_timeout_s = 30
+    variants = ["current", "repaired"]     # Merkle only: hash the serialisation (code that exists) / a canonical form
     rule = ("seven families (bloom, cms, hll, topk, reservoir, merkle, tdigest), round-robin; streams of 0–200 weighted adds "
             "(skewed / uniform / colliding-by-construction / single item / empty; counts 0, 1, large, occasionally negative), "
             "small dimensions (Bloom 1–128 bits, CMS 1–16×1–5, HLL p=4–16, TopK k=1–8, reservoir 1–8), every split point reachable; "
@@ -121,6 +173,11 @@ class C20(core.Property):
             "12 % with one differently configured register) — ≤40 add / merge / clear operations shaped as window aggregation (merge a window into an aggregate that "
             "may still be empty, then clear or keep filling the window), merge chains a→b→c with the early links changed afterwards, fan-in, or random (self-merge "
             "for the three mergeable kinds); every sketch is observed after every operation; "
+            "Merkle family: half the cases use the plain palette (16 values distinct under == and repr), half are replica scripts over the full palette — values equal under == but serialised "
+            "differently (1 / 1.0 / True / Decimal(1), 0 / 0.0 / -0.0 / False, 1.5 / Fraction(3,2), 10**20 / 1e20, (1,2) / (1.0,2.0), b'b' / bytearray(b'b'), 'v' / str subclass with its own repr, "
+            "[1] / [1.0] / [True], {'n':1} / {'n':1.0}), a str subclass inheriting repr, and mutable records (lists, dicts, bytearrays) that are changed IN PLACE (object obtained with get()) and "
+            "published with update(key, same_object); updates with an equal object, with an ==-equal differently serialised value, with new values, removals; the other replica follows with a fresh equal "
+            "object (60 %); a diff in both directions after every operation, judged against the logical maps; "
             "a case is non-trivial when it has ≥2 accepted adds (sketches) or ≥1 differing key (Merkle) or ≥1 add and ≥1 merge (seq); distinct = distinct case content")
     trusted_base = [
         "hv/props/c20.py adapters (drive the real sketch objects, canonical transcript)",
@@ -129,12 +186,18 @@ class C20(core.Property):
         "ReservoirSampler._rng replaced by a scripted generator (the draws are inputs of the model)",
         "SHA-256 / builtin hash() behave as fixed functions within one process (PYTHONHASHSEED=0)",
         "Merkle keys are mapped to their rank in the sorted key pool (Python str order = Nat order on ranks)",
+        "Merkle values cross as serialisation ids (palette index of the first value with the same repr) and, for cases judged under Python equality, a table id -> ==-class computed by the adapter with == on the palette objects; "
+        "the model's hash tables come from the module's own _hash_leaf / _hash_children applied to the logical maps (the real trees are not consulted for the model)",
         "t-digest doubles cross as order-preserving integer keys (okey); no float arithmetic on the Lean side",
         "seq family: the reference sketch of a register (`w<i>` lines: a fresh sketch of the same configuration fed with the register's logical stream by add() only) "
         "is built by the adapter; the logical stream is recomputed on the Lean side (`logical`) for the one-sided bounds, the TopK / reservoir / t-digest clauses",
     ]
     assumptions = [
         "reservoir clause read as: size = min(k, n) and every sampled element occurs in the stream (set reading; merge samples with replacement)",
+        "Merkle 'the two maps are equal': judged as serialised identity (two values are the same iff repr() — what the tree hashes — is the same), the tree's own notion; under Python's == on dicts "
+        "({k: 1} == {k: 1.0}) the code that exists reports a non-empty diff for equal maps (finding merkle/diff/nonempty-but-python-equal, fixes/C20-merkle-python-equal-values.known.md); "
+        "cases marked eqmode=python are judged under that reading and are generated only when C20.PYEQ_CASES is on; NaN and values whose repr embeds an address are outside the value domain; "
+        "a mutable value changed in place WITHOUT a following update(key, value) is a user error and is not generated (the harness never shares a mutable object between keys or trees)",
         "TopK.merge is not part of the property text and is not modelled (its item_count can exceed N: k=2, {a:1,b:2}.merge({c:5,a:1}) reports 10 for 9)",
         "t-digest: no Lean model of the float centroid arithmetic; its two clauses are judged on the implementation's own outputs only",
         "HLL cardinality() (float estimator) is not compared; the merge law is on registers",
@@ -405,7 +468,15 @@ class C20(core.Property):
         return {"family": "reservoir", "kind": rng.choice(KINDS), "kA": kA, "kB": kB, "stream": stream, "split": split,
                 "scripts": {"W": script(n), "A": script(n), "B": script(n), "M": script(2 * ka + 2)}}
 
+    # Judging "equal maps" as Python's == on dicts ({k: 1} == {k: 1.0}) is a clause the code that exists
+    # does not meet (it hashes repr(value)); see fixes/C20-merkle-python-equal-values.known.md.  Cases
+    # carry "eqmode": "python" to be judged under it; the generator emits such cases only when this
+    # flag is on (to be switched on once the finding is registered in known_findings.json).
+    PYEQ_CASES = True
+
     def gen_merkle(self, rng, tier):
+        if rng.random() < 0.5:
+            return self.gen_merkle_rich(rng, tier)
         nk = rng.choice([0, 1, 2, 3, 4, 5, 7, 8, 9, 16, len(KEYS)])
         keys = rng.sample(range(len(KEYS)), min(nk, len(KEYS)))
         a = [[k, rng.randrange(4)] for k in keys]
@@ -448,6 +519,85 @@ class C20(core.Property):
                     ops.append(["upd", side, k, v])
             ops.append(["diff"])
         return {"family": "merkle", "a": a, "b": b, "ops": ops}
+
+    def gen_merkle_rich(self, rng, tier):
+        """Replica-style scripts over the full value palette: records (lists / dicts / bytearrays)
+        changed IN PLACE and published with update(key, same_object); updates with an equal object
+        (nothing changes), with an ==-equal value that is serialised differently (1 -> 1.0 -> True),
+        with really new values; the other replica follows (or not); a diff after every step.  The
+        generator keeps the logical maps itself — the implementation is not consulted."""
+        nv = len(VALS)
+        nk = rng.choice([1, 2, 3, 5, 8])
+        keys = rng.sample(range(len(KEYS)), nk)
+        flavour = rng.choice(["records", "records", "numbers", "mixed"])
+
+        def pick():
+            r = rng.random()
+            if flavour == "records" or (flavour == "mixed" and r < 0.4):
+                return rng.choice(rng.choice(MUT_GROUPS))
+            if flavour == "numbers" or r < 0.8:
+                return rng.choice(rng.choice(EQ_GROUPS))
+            return rng.randrange(nv)
+
+        maps = {"a": {k: pick() for k in keys}}
+        start = rng.choice(["equal", "equal", "equal", "one-differs", "py-equal", "missing"])
+        maps["b"] = dict(maps["a"])
+        if start == "one-differs":
+            maps["b"][rng.choice(keys)] = pick()
+        elif start == "py-equal":
+            for k in keys:
+                g = [v for v in range(nv) if EID[v] == EID[maps["b"][k]]]
+                maps["b"][k] = rng.choice(g)
+        elif start == "missing":
+            maps["b"].pop(rng.choice(keys))
+        a0 = [[k, v] for k, v in maps["a"].items()]
+        b0 = [[k, v] for k, v in maps["b"].items()]
+        rng.shuffle(b0)
+        ops = [["diff"]]
+        for _ in range(rng.choice([1, 2, 3, 5, 8])):
+            side = rng.choice(["a", "a", "b"])
+            other = "b" if side == "a" else "a"
+            m = maps[side]
+            if not m:
+                k, v = rng.choice(keys), pick()
+                ops += [["upd", side, k, v], ["diff"]]
+                m[k] = v
+                continue
+            k = rng.choice(sorted(m))
+            cur = m[k]
+            same_type = [v for g in MUT_GROUPS if cur in g for v in g if RID[v] != RID[cur]]
+            same_class = [v for v in range(nv) if EID[v] == EID[cur] and RID[v] != RID[cur]]
+            r = rng.random()
+            if r < 0.4 and same_type:
+                op = ["mupd", side, k, rng.choice(same_type)]           # change the record in place, publish it
+            elif r < 0.55 and same_class:
+                op = ["upd", side, k, rng.choice(same_class)]           # equal under ==, serialised differently
+            elif r < 0.65:
+                op = ["upd", side, k, rng.choice([v for v in range(nv) if RID[v] == RID[cur]])]   # an equal object: no change
+            elif r < 0.8:
+                op = [rng.choice(["upd", "mupd"]), side, k, pick()]
+            elif r < 0.9:
+                op = ["del", side, k]
+            else:
+                op = ["upd", side, rng.choice(keys), pick()]
+            ops += [op, ["diff"]]
+            if op[0] == "del":
+                m.pop(k, None)
+            else:
+                m[op[2]] = op[3]
+            if rng.random() < 0.6:
+                # the other replica catches up (a fresh, equal object) — or drops the key as well
+                if op[0] == "del":
+                    ops += [["del", other, op[2]], ["diff"]]
+                    maps[other].pop(op[2], None)
+                else:
+                    via = "mupd" if rng.random() < 0.3 else "upd"
+                    ops += [[via, other, op[2], op[3]], ["diff"]]
+                    maps[other][op[2]] = op[3]
+        case = {"family": "merkle", "a": a0, "b": b0, "ops": ops}
+        if self.PYEQ_CASES:
+            case["eqmode"] = "python"
+        return case
 
     def gen_tdigest(self, rng, tier):
         comp = rng.choice([[2, 5], [1, 2], [1, 1], [2, 1], [3, 1], [5, 1], [10, 1], [20, 1], [100, 1]])
@@ -702,13 +852,24 @@ class C20(core.Property):
     def _merkle_replay(case, on_diff):
         from happysimulator.sketching.merkle_tree import MerkleTree
 
-        ta = MerkleTree.build({KEYS[k]: VALS[v] for k, v in case["a"]})
-        tb = MerkleTree.build({KEYS[k]: VALS[v] for k, v in case["b"]})
+        ta = MerkleTree.build({KEYS[k]: make_val(v) for k, v in case["a"]})
+        tb = MerkleTree.build({KEYS[k]: make_val(v) for k, v in case["b"]})
         out = []
         for op in case["ops"]:
             t = ta if len(op) > 1 and op[1] == "a" else tb
             if op[0] == "upd":
-                t.update(KEYS[op[2]], VALS[op[3]])
+                t.update(KEYS[op[2]], make_val(op[3]))
+            elif op[0] == "mupd":
+                # a record is changed and the tree is told about it: the stored object (as get() hands
+                # it out) is modified IN PLACE and published with update(key, same_object).  Falls back
+                # to a plain update when the key holds no mutable value of the target's type.
+                cur = t.get(KEYS[op[2]])
+                target = make_val(op[3])
+                if isinstance(cur, MUTABLE) and type(cur) is type(target):
+                    set_in_place(cur, target)
+                    t.update(KEYS[op[2]], cur)
+                else:
+                    t.update(KEYS[op[2]], target)
             elif op[0] == "del":
                 out.append(f"del {1 if t.remove(KEYS[op[2]]) else 0}")
             else:
@@ -793,8 +954,13 @@ class C20(core.Property):
         if fam == "topk":
             return [f"cfg {case['k']}", f"probe {j(case['probes'])}"] + [j(op) for op in case["ops"]]
         if fam == "merkle":
-            return [("a " + j(x for p in case["a"] for x in p)).rstrip(), ("b " + j(x for p in case["b"] for x in p)).rstrip()] + \
-                   [j(op) for op in case["ops"]]
+            # the Lean side works on serialisation ids (RID); an in-place change + publish is an `upd`
+            def opl(op):
+                if op[0] in ("upd", "mupd"):
+                    return f"upd {op[1]} {op[2]} {RID[op[3]]}"
+                return j(op)
+            return [("a " + j(x for k, v in case["a"] for x in (k, RID[v]))).rstrip(),
+                    ("b " + j(x for k, v in case["b"] for x in (k, RID[v]))).rstrip()] + [opl(op) for op in case["ops"]]
         if fam == "tdigest":
             return [f"cfg {case['comp'][0]} {case['comp'][1]}"] + [f"add {okey(v)} {c}" for v, c in case["vals"]] + [f"split {case['split']}"]
         if fam == "seq":
@@ -848,38 +1014,52 @@ class C20(core.Property):
         elif fam == "reservoir":
             body += [f"script{k} {j(v)}" for k, v in case["scripts"].items()]
         elif fam == "merkle":
+            body.append(self.pyeq_line())
             try:
-                body += self.merkle_tables(case)
-            except Exception:  # the real trees could not be walked: the model runs without tables
+                body += self.merkle_tables(case, variant)
+            except Exception:  # the hash helpers could not be called: the model runs without tables
                 pass
+            return (f"merkle {variant}", body)
         return (fam, body)
 
-    def merkle_tables(self, case):
-        """walk the real trees at every diff point; number the distinct digests; ship leaf/inner tables"""
-        rank = {k: i for i, k in enumerate(KEYS)}
-        vid = {repr(v): i for i, v in enumerate(VALS)}
+    @staticmethod
+    def pyeq_line():
+        return "pyeq " + j(x for v in sorted(set(RID)) for x in (v, EID[v]))
+
+    def merkle_tables(self, case, variant="current"):
+        """Leaf / inner hash tables for the model, from the module's own `_hash_leaf` / `_hash_children`
+        applied to the LOGICAL maps (what the user stored) at every diff point — the real trees are not
+        consulted.  Digests are numbered; the tree shape is `_build_tree`'s (split at len // 2)."""
+        from happysimulator.sketching.merkle_tree import _hash_children, _hash_leaf
+
+        canon = (lambda v: EID[v]) if variant == "repaired" else (lambda v: RID[v])
         ids, leaf, inner = {}, {}, {}
 
         def hid(h):
             return ids.setdefault(h, len(ids) + 1)
 
-        def walk(t, node):
-            if node is None:
-                return
-            if node.left is None and node.right is None:
-                k = node.key_range.start
-                leaf[(rank[k], vid[repr(t.get(k))])] = hid(node.hash)
+        def walk(items):
+            if len(items) == 1:
+                k, v = items[0]
+                h = _hash_leaf(KEYS[k], VALS[v])
+                leaf[(k, v)] = hid(h)
+                return h
+            mid = len(items) // 2
+            lh, rh = walk(items[:mid]), walk(items[mid:])
+            h = _hash_children(lh, rh)
+            inner[(hid(lh), hid(rh))] = hid(h)
+            return h
+
+        maps = {"a": {k: canon(v) for k, v in case["a"]}, "b": {k: canon(v) for k, v in case["b"]}}
+        for op in case["ops"]:
+            if op[0] in ("upd", "mupd"):
+                maps[op[1]][op[2]] = canon(op[3])
+            elif op[0] == "del":
+                maps[op[1]].pop(op[2], None)
             else:
-                walk(t, node.left)
-                walk(t, node.right)
-                inner[(hid(node.left.hash), hid(node.right.hash))] = hid(node.hash)
-
-        def on_diff(ta, tb):
-            walk(ta, ta.root)
-            walk(tb, tb.root)
-            return ""
-
-        self._merkle_replay(case, on_diff)
+                for m in maps.values():
+                    if m:
+                        walk(sorted(m.items()))
         return [f"hl {k} {v} {h}" for (k, v), h in sorted(leaf.items())] + [f"hc {a} {b} {h}" for (a, b), h in sorted(inner.items())]
 
     def judge_block(self, case, impl_out):
@@ -914,6 +1094,8 @@ class C20(core.Property):
                 if line == marker and ci < len(chunks):
                     out += chunks[ci]
                     ci += 1
+            if fam == "merkle" and case.get("eqmode") == "python":
+                out.append(self.pyeq_line())
             return (f"judge-{fam}", out)
         return (f"judge-{fam}", body + ["obs " + l for l in impl_out if not l.startswith(("adderr", "merge"))])
 
@@ -994,6 +1176,10 @@ THEOREMS = [
     "HappyModel.C20.reservoir_merge",
     "HappyModel.C20.merkle_diff_empty_iff_equal",
     "HappyModel.C20.merkle_diff_covers",
+    "HappyModel.C20.merkle_root_tracks_data",
+    "HappyModel.C20.merkle_ops_diff_laws",
+    "HappyModel.C20.merkle_diff_python_equal_repaired",
+    "HappyModel.C20.merkle_python_equal_nonempty_current",
     "HappyModel.C20.seqRun_refines",
     "HappyModel.C20.cms_program_registers_are_sketches",
     "HappyModel.C20.bloom_program_registers_are_sketches",
